@@ -381,6 +381,26 @@ def run(R, tier):
         oc = rows[(ty, tok)][0]
         R.check("Ok" in oc, "R09.8", "agree:%s" % ty, "written as %s data, which its own converter accepts" % tok, "%s is written as %s but its TryFrom<Token> never accepts that element type (%s): the response cannot be read back" % (ty, tok, sorted(oc)))
     R.floor("R09.8", "types that are both response data and parameter", n_ag, 18)
+    # ---- R09.11 the library's own reader on what the integer writers emit at the ends of each type's range ----------------------------
+    # The decimal text of MIN, MAX, 0 and -1 / 1 of every integer type (what lexical-core's writer emits for them: plain
+    # NR1 digits, R09.1) is folded through the type's own TryFrom<Token>: it must come back as that value - a reader
+    # that parses through a narrower intermediate rejects its own writer's output (seed C09-K).
+    from . import c07 as _c07
+    deng = CV.decimal_engine("dflt", "scpi")
+    convs = {ty: b_ for ty, b_ in CV.conversions(u) if ty in CV.INTS}
+    n_rt = 0
+    for ity in sorted(convs):
+        lo_, hi_, _bits = CV.INTS[ity]
+        bad_rt = []
+        for val in sorted({lo_, hi_, 0, 1, -1 if lo_ < 0 else 1, hi_ - 1, lo_ + 1}):
+            text = str(val).encode()
+            rr = CV.fold_decimal(deng, convs[ity], text)
+            v_ = _c07.ok_value(rr[0]) if rr is not None and len(rr) == 1 and rr[0].outcome == "return" else None
+            if not (isinstance(v_, K) and v_.v == val):
+                bad_rt.append("%s is read back as %s" % (text.decode(), "undecided" if rr is None else [M.outcome(r_) + ("(%s)" % _c07.ok_value(r_).v if isinstance(_c07.ok_value(r_), K) else "") for r_ in rr][:2]))
+        n_rt += 1
+        R.check(not bad_rt, "R09.11", "round-trip:%s" % ity, "MIN, MAX and their neighbours written in decimal are read back as themselves by the type's own conversion", "; ".join(bad_rt[:3]), where=convs[ity].span)
+    R.floor("R09.11", "integer types read back", n_rt, 10)
 
     # ---- R09.9 enum response text (constant folding; same analysis as C20/R20.4) --------------------------------------------------------
     from . import c20
